@@ -116,3 +116,25 @@ PLAN["C04"] = {
     "thorough": [{"test": "TestC04_Lengths", "rapid": False, "shards": 16, "timeout": 2400},
                  {"test": "TestC04_Rapid", "checks": 500, "shards": 16, "timeout": 2400}],
 }
+
+PLAN["C01"] = {
+    "level": "exploration",
+    "rule": ("rapid: a state-machine history (insert-next, insert-random-empty, delete (holes), overwrite; 0-12 steps) on an independent sparse tree fixes the pre-state; then one batch "
+             "drawn from VALID classes (next free index, run of holes, ending at the last leaf, random empty run; commitments 0,1,r-1,duplicate,random) or INVALID-by-mutation classes "
+             "(occupied leaf with its genuine path, all paths from the pre-state, stale path from an earlier state, corrupted sibling, swapped/reused paths, post-root = pre / after b-1 / "
+             "after b+1 / random, start+-1, start past the end, start aliased by 2^depth, start >= 2^32, start wrapping the field order, depth 32 with start 2^32-1, changed commitment, "
+             "changed pre-root). The verdict is decided by the reference relation R-ins (not by the generation class). E1: depth uniform 1..32, batch 1..6 (thorough 1..16); the InsertionProof "
+             "gadget and the full circuit in gnark's test engine must accept IFF R-ins (and start < 2^32). E2: the system returned by BuildR1CSInsertion at (1,1),(3,2),(2,3) "
+             "(thorough + (32,2),(10,4),(31,1),(5,5)) solved with a drawn prover strategy for every bit-decomposition hint (honest, v+k*r, flipped bit, non-boolean same-sum digits, "
+             "bits of another value, zeros, ones; optionally only for one chosen value/width): accept => R-ins; honest: accept <=> R-ins; differential E1 vs E2-honest. "
+             "Non-trivial = every case except a valid batch at start 0 on the empty tree; distinct = SHA-1 of the canonical case."),
+    "assumptions": A_COMMON + ["structural scan of the compiled system: every internal wire other than a hint output is defined on the O side of one constraint, so (inputs, hint outputs) is the whole freedom of a dishonest prover"],
+    "technique": "model-based property testing (history state machine + reference relation) with adversarial hint functions on the compiled R1CS",
+    "level_text": ("Exploration: generated histories/batches in all listed valid and invalid classes at every depth 1..32 (honest engine) and at 3-7 compiled dimensions with "
+                   "dishonest-prover strategies; both directions of the iff are asserted for the honest prover, soundness for adversarial strategies."),
+    "level_note": "dishonest-prover coverage only at the compiled dimensions; other dimensions honest engine only; gnark's compiler/solver trusted as deployed semantics",
+    "quick": [{"test": "TestC01_E1", "checks": 120, "shards": 6, "timeout": 900},
+              {"test": "TestC01_E2", "checks": 250, "shards": 4, "timeout": 900}],
+    "thorough": [{"test": "TestC01_E1", "checks": 1200, "shards": 12, "timeout": 3000},
+                 {"test": "TestC01_E2", "checks": 1500, "shards": 8, "timeout": 3000}],
+}
